@@ -399,6 +399,9 @@ def immutable_op_sweep(ctx):
         for name in mut_names:
             f = getattr(cls, name, None)
             if f is None or not callable(f):
+                # the immutable class does not expose this mutator at all - which is what the property asks for
+                ctx.op('immutable-op-sweep', 'absent')
+                ctx.ok(('immutable-op', cls.__name__, name, 'absent'))
                 continue
             for content in ('0101101001011010', '1' * 16):
                 case = {'sweep': [cls.__name__, name, content]}
